@@ -35,7 +35,7 @@ Definition lset_of (c : case) (i : Z) : list (string * string) :=
 Definition op_of (c : case) (x : xop) : option op :=
   match x with
   | XPut l s e u => Some (OProcess (mkA (lset_of c l) s e u))
-  | XGC => Some OGC
+  | XGC => Some (OGC (fun _ => true))
   | XTick => Some OTick
   | XReset => None
   end.
